@@ -18,8 +18,11 @@ RULE = (
     "matched/remaining split, every order status (EXPIRED only unmatched), 1-3 winners, active runners >= runners "
     "with orders, plus orders of a second strategy that must be ignored; one order in six was refused by a control on "
     "an earlier attempt (VIOLATION) and then submitted again. Oracle: brute force over every subset of "
-    "open orders and every admissible winner set; metamorphic exclusion / new_order relations. Non-trivial: a "
-    "selection with >= 2 open orders of both sides plus a matched position; distinct = distinct case JSON."
+    "open orders and every admissible winner set; metamorphic exclusion / new_order relations; after all queries a "
+    "runner removal is applied with the simulation's own routine and every figure is asked for again (the figures are "
+    "a function of the current state). Non-trivial: a "
+    "selection with >= 2 open orders of both sides plus a matched position, or a removal that changed a position that "
+    "had been queried before; distinct = distinct case JSON."
 )
 ASSUMPTIONS = [
     "starting-price orders count their liability against the losing (BACK) / winning (LAY) outcome whatever their status, as the statement's 'starting-price liabilities'",
@@ -92,7 +95,10 @@ def case(draw, tier="quick"):
             "probe_sel": draw(st.integers(0, ns - 1)), "probe_order": draw(st.integers(0, 5)),
             "new": draw(order_spec(ladder)),
             # the second strategy (whose orders must be ignored) may carry the SAME name: two instances of one class
-            "same_name": draw(st.integers(0, 3)) == 0}
+            "same_name": draw(st.integers(0, 3)) == 0,
+            # after all queries: a runner is declared a non-runner (the simulation's own removal routine voids the
+            # orders on it and reduces the matched prices elsewhere), then every figure is asked for again
+            "removal": {"si": draw(st.integers(0, ns - 1)), "af": draw(st.sampled_from([1.0, 2.5, 10.0, 40.0, 99.0]))}}
 
 
 def build_order(strategy, market_id, sel, hc, spec, ladder, client, live):
@@ -309,6 +315,45 @@ def check(c):
         if abs(me - exp_me) > tol(all_ps + [fpos]) * max(1, len(c["sels"])):
             raise Violation("new-order-market", ("unsent", "refused-before" if refused_before else "never-submitted"),
                             "market exposure with the prospective order %s, as-if-added %s" % (me, exp_me), c)
+        # ---- the figures are a function of the CURRENT state of the orders: a removal changes matched positions
+        rm = c.get("removal")
+        if rm and not live and ladder != "LINE_RANGE" and rm["si"] < len(c["sels"]):
+            from flumine.markets.middleware import SimulatedMiddleware
+
+            rs = c["sels"][rm["si"]]
+            market_ns = types.SimpleNamespace(market_id=mid, blotter=blotter, market_type="MATCH_ODDS", market_book=None)
+            SimulatedMiddleware()._process_runner_removal(market_ns, rs["sel"], rs["hc"], rm["af"])
+            classes.add("requery-after-removal")
+            for si2, s2 in enumerate(c["sels"]):
+                removed = (s2["sel"], s2["hc"]) == (rs["sel"], rs["hc"])
+                ps = []
+                for oi in range(len(s2["orders"])):
+                    p_ = pos[(si2, oi)]
+                    if not p_:
+                        continue
+                    if p_["kind"] != "LIMIT":
+                        ps.append(p_)
+                    elif removed:
+                        ps.append(dict(p_, fills=[], open=None))  # voided in full
+                    elif rm["af"] >= 2.5:
+                        ps.append(dict(p_, fills=[(max(round(pr_ * (1 - rm["af"] / 100), 2), 1.01), sz_) for pr_, sz_ in p_["fills"]]))
+                    else:
+                        ps.append(p_)
+                if removed and any(p_["kind"] != "LIMIT" for p_ in ps):
+                    continue  # (starting-price orders on the non-runner: not judged)
+                exp = X.selection_worst(ps)
+                got = blotter.get_exposures(strat, (mid, s2["sel"], s2["hc"]))
+                t = tol(ps)
+                for gk, ek in (("matched_profit_if_win", "matched_win"), ("matched_profit_if_lose", "matched_lose"),
+                               ("worst_possible_profit_on_win", "win"), ("worst_possible_profit_on_lose", "lose")):
+                    if abs(got[gk] - exp[ek]) > t:
+                        raise Violation("get-exposures", (gk, "after-removal", "removed-runner" if removed else "other-runner"),
+                                        "selection %s after the removal of %s (factor %s): %s=%s, brute force on the current state %s" % (
+                                            (s2["sel"], s2["hc"]), (rs["sel"], rs["hc"]), rm["af"], gk, got[gk], exp[ek]), c)
+                before = [pos[(si2, oi)] for oi in range(len(s2["orders"])) if pos[(si2, oi)]]
+                if ps != before:
+                    nontrivial = True
+                    classes.add("requery:position-changed-by-removal")
     return nontrivial, classes
 
 
